@@ -194,8 +194,23 @@ struct World
   }
 
   // returns false if the operation is not enabled in this state
-  bool apply(const Op &op)
+  static const char *kind() { return "ArrayView"; }
+  static const std::vector<OpInfo> &ops()
   {
+    static std::vector<OpInfo> v;
+    if (v.empty())
+      for (auto &o : OPS()) {
+        OpInfo i;
+        i.name = o.name;
+        i.cls = o.cls;
+        v.push_back(i);
+      }
+    return v;
+  }
+
+  bool apply(int opIndex)
+  {
+    const Op &op = OPS()[opIndex];
     const int s = op.slot;
     touched[0] = touched[1] = false;
     if (op.code >= V_DEF) {
@@ -358,93 +373,7 @@ struct World
   }
 };
 
-template <typename T>
-static int run_history(const std::vector<int> &h, const std::string &replay, bool verbose)
-{
-  World<T> w;
-  const std::vector<Op> &ops = OPS();
-  for (size_t i = 0; i < h.size(); i++) {
-    if (verbose)
-      printf("op %zu: %s\n", i, ops[h[i]].name.c_str());
-    if (!w.apply(ops[h[i]])) {
-      if (verbose)
-        printf("  (operation not enabled in this state)\n");
-      return sq::H_DISABLED;
-    }
-    if (verbose || i + 1 == h.size()) {
-      Checker c;
-      c.replay = &replay;
-      c.verbose = verbose;
-      c.mix(h[i]);
-      w.check(c);
-      if (i + 1 == h.size()) {
-        sq::stat("states");
-        sq::stat("traces");
-        sq::stat("transitions", (long long)h.size());
-        sq::stat("max_depth", (long long)h.size());
-        sq::outcome(c.digest);
-        if (h.size() >= 3 && vr::S().samples.size() < 6 && (h[0] + h[1] + h[2]) % 7 == 3)
-          sq::sample(replay + " = " + ops[h[0]].name + "; " + ops[h[1]].name + "; " + ops[h[2]].name + (h.size() > 3 ? "; ..." : ""), std::string(TName<T>::s()) + std::to_string(h.size()) + std::to_string(h[0] % 3));
-      }
-      if (verbose)
-        c.finish_replay();
-      if (c.violated)
-        return sq::H_VIOL;
-    }
-  }
-  if (h.empty()) {
-    sq::stat("states");
-    sq::stat("traces");
-  }
-  return sq::H_OK;
-}
-
-template <typename T>
-static void explore(int depth)
-{
-  const std::string tag = std::string("views/") + TName<T>::s();
-  const int A = (int)OPS().size();
-  const int nshards = 64;
-  vr::run_sharded(nshards, [&](int shard, long long resume_after) {
-    sq::shard_begin(tag, shard, resume_after);
-    sq::Explorer ex(A, depth);
-    ex.tag = tag;
-    ex.run = [](const std::vector<int> &h, const std::string &rp) { return run_history<T>(h, rp, false); };
-    ex.sigctx = [](const std::vector<int> &h) { return "ArrayView|crash during " + (h.empty() ? std::string("setup") : OPS()[h.back()].cls); };
-    ex.go(shard, nshards, resume_after);
-  });
-}
-
 int main(int argc, char **argv)
 {
-  vr::init(argc, argv);
-  if (vr::replaying()) {
-    std::string r = vr::S().replay;
-    size_t c = r.find(':');
-    std::string tag = r.substr(0, c);
-    std::vector<int> h = sq::parse_ops(r.substr(c + 1));
-    for (int x : h)
-      if (x < 0 || x >= (int)OPS().size()) {
-        printf("bad op index %d\n", x);
-        return 2;
-      }
-    int res;
-    if (tag == "views/u8")
-      res = run_history<uint8_t>(h, r, true);
-    else if (tag == "views/f64")
-      res = run_history<double>(h, r, true);
-    else
-      res = run_history<int>(h, r, true);
-    printf("result: %s\n", res == sq::H_OK ? "ok" : res == sq::H_DISABLED ? "history not enabled" : "VIOLATION");
-    vr::flush();
-    return vr::S().viols.empty() ? 0 : 1;
-  }
-  sq::make_scratch();
-  const int d = vr::thorough() ? 5 : 4;
-  explore<int>(d);
-  explore<uint8_t>(d - 1);
-  explore<double>(d - 1);
-  sq::remove_scratch();
-  vr::note("alphabet " + std::to_string(OPS().size()) + " operations; depth " + std::to_string(d) + " for int, " + std::to_string(d - 1) + " for uint8_t and double");
-  return vr::finish();
+  return unit_main<World>("views", argc, argv, 4, 5);
 }
